@@ -81,7 +81,9 @@ Definition schema_classed (s : schema) : Prop :=
 (* the row built from a dict record can be sized *)
 Definition sizable (ns : list key) (r : record) : Prop := forallb packable (extract ns r) = true.
 
-Definition is_dict (e : entry) : bool := match ekind_of e with KDict => true | _ => false end.
+(* the entry is a record: a dict or any other mapping *)
+Definition is_mapping (e : entry) : bool :=
+  match ekind_of e with KDict | KMapping => true | KTuple | KScalar => false end.
 
 (* a frame whose schema is a list of names behaves like all-untyped, all-nullable columns *)
 Definition frame_schema (k : fkind) : schema :=
@@ -101,8 +103,7 @@ Fixpoint accepted (es : list entry) (os : list aout) : list entry :=
 (* the row a successful append stores *)
 Definition built (k : fkind) (e : entry) : row :=
   match ekind_of e with
-  | KDict => extract (fields k) (eitems e)
-  | KMapping => map key_value (keys (eitems e))
+  | KDict | KMapping => extract (fields k) (eitems e)
   | KTuple => map snd (eitems e)
   | KScalar => []
   end.
@@ -471,50 +472,85 @@ Proof.
   intros rw. unfold step_size. destruct (forallb packable rw); split; intros H; try reflexivity; discriminate.
 Qed.
 
+Lemma mapping_validate_entry : forall s e,
+  is_mapping e = true -> validate_entry s e = validate s (eitems e).
+Proof.
+  intros s e H. unfold is_mapping in H. unfold validate_entry. destruct (ekind_of e); try discriminate; reflexivity.
+Qed.
+
+Lemma mapping_step_build : forall f e,
+  is_mapping e = true -> step_build f e = Ok (extract (fields (fk f)) (eitems e)).
+Proof.
+  intros f e H. unfold is_mapping in H. unfold step_build. destruct (ekind_of e); try discriminate; reflexivity.
+Qed.
+
+Lemma mapping_built : forall k e,
+  is_mapping e = true -> built k e = extract (fields k) (eitems e).
+Proof.
+  intros k e H. unfold is_mapping in H. unfold built. destruct (ekind_of e); try discriminate; reflexivity.
+Qed.
+
 Lemma step_validate_schema_ok_iff : forall f s e,
-  fk f = FSchema s -> ekind_of e = KDict ->
+  fk f = FSchema s -> is_mapping e = true ->
   (step_validate f e = Ok tt <-> conforms s (eitems e)).
 Proof.
-  intros f s e Hk He. unfold step_validate, validate_entry. rewrite Hk, He.
+  intros f s e Hk He. unfold step_validate. rewrite Hk, (mapping_validate_entry s e He).
   rewrite <- validate_ok_iff_conforms. destruct (validate s (eitems e)); split; intros H; try reflexivity; discriminate.
 Qed.
 
-(* schema-bound frame, dict record: accepted exactly when it conforms and the row can be sized *)
+(* schema-bound frame, any mapping: accepted exactly when it conforms and the row can be sized *)
 Lemma append_accepts_iff : forall f s e,
-  fk f = FSchema s -> ekind_of e = KDict ->
+  fk f = FSchema s -> is_mapping e = true ->
   (snd (append f e) = AOk <-> conforms s (eitems e) /\ sizable (names s) (eitems e)).
 Proof.
   intros f s e Hk He.
   assert (B : built (fk f) e = extract (names s) (eitems e)).
-  { unfold built. rewrite He, Hk. reflexivity. }
+  { rewrite (mapping_built _ e He), Hk. reflexivity. }
   split.
   - intros H. destruct (append_ok f e H) as [_ [V S]]. split.
     + apply (step_validate_schema_ok_iff f s e Hk He). exact V.
     + unfold sizable. rewrite <- B. apply step_size_ok_iff. exact S.
   - intros [C S]. unfold append.
     rewrite (proj2 (step_validate_schema_ok_iff f s e Hk He) C).
-    unfold step_build. rewrite He, Hk. cbn [fields].
+    rewrite (mapping_step_build f e He), Hk. cbn [fields].
     unfold sizable in S. unfold step_size. rewrite S. reflexivity.
 Qed.
 
-(* name-list frame, dict record: accepted exactly when the row can be sized *)
+(* schema-bound frame, any entry whatsoever: accepted exactly when it is a record (a mapping) that conforms
+   and whose row can be sized; anything that is not a mapping raises TypeError *)
+Lemma append_accepts_iff_all : forall f s e,
+  fk f = FSchema s ->
+  (snd (append f e) = AOk <-> is_mapping e = true /\ conforms s (eitems e) /\ sizable (names s) (eitems e)) /\
+  (is_mapping e = false -> snd (append f e) = ARaise (AExn TypeError)).
+Proof.
+  intros f s e Hk.
+  assert (NM : is_mapping e = false -> snd (append f e) = ARaise (AExn TypeError)).
+  { intros H. unfold is_mapping in H. unfold append, step_validate, validate_entry. rewrite Hk.
+    destruct (ekind_of e); try discriminate; reflexivity. }
+  split; [|exact NM]. destruct (is_mapping e) eqn:He.
+  - rewrite (append_accepts_iff f s e Hk He). split; [intros H; split; [reflexivity | exact H] | intros [_ H]; exact H].
+  - rewrite (NM eq_refl). split; [discriminate | intros [H _]; discriminate].
+Qed.
+
+(* name-list frame, any mapping: accepted exactly when the row can be sized *)
 Lemma append_names_accepts_iff : forall f ns e,
-  fk f = FNames ns -> ekind_of e = KDict ->
+  fk f = FNames ns -> is_mapping e = true ->
   (snd (append f e) = AOk <-> sizable ns (eitems e)).
 Proof.
-  intros f ns e Hk He. unfold append, step_validate, step_build, sizable, step_size. rewrite Hk, He. cbn [fields].
+  intros f ns e Hk He. unfold append. rewrite (mapping_step_build f e He). unfold step_validate. rewrite Hk.
+  cbn [fields]. unfold sizable, step_size.
   destruct (forallb packable (extract ns (eitems e))); cbn [snd]; split; intros H; try reflexivity; discriminate.
 Qed.
 
-(* the row stored for an accepted dict record: its values in column order, conforming *)
-Lemma append_dict_row : forall f e,
-  ekind_of e = KDict -> snd (append f e) = AOk ->
+(* the row stored for an accepted record: its values in column order, conforming *)
+Lemma append_mapping_row : forall f e,
+  is_mapping e = true -> snd (append f e) = AOk ->
   built (fk f) e = extract (fields (fk f)) (eitems e) /\
   row_conforms (frame_schema (fk f)) (built (fk f) e) /\
   (forall s, fk f = FSchema s -> conforms s (eitems e)).
 Proof.
   intros f e He H.
-  assert (B : built (fk f) e = extract (fields (fk f)) (eitems e)) by (unfold built; rewrite He; reflexivity).
+  assert (B : built (fk f) e = extract (fields (fk f)) (eitems e)) by (apply mapping_built; exact He).
   split; [exact B|]. destruct (fk f) as [s|ns] eqn:Hk.
   - assert (C : conforms s (eitems e)).
     { apply (append_accepts_iff f s e Hk He). exact H. }
@@ -591,10 +627,10 @@ Proof.
     + right. apply (IH os). exact H.
 Qed.
 
-(* dict entries only: what is stored for each accepted record is its values in column order, every such
+(* records (dicts and other mappings): what is stored for each accepted record is its values in column order, every such
    row conforms, and so does the whole frame if it did initially *)
-Lemma history_dict : forall es f,
-  forallb is_dict es = true ->
+Lemma history_mapping : forall es f,
+  forallb is_mapping es = true ->
   map (built (fk f)) (accepted es (snd (run f es))) =
     map (fun e => extract (fields (fk f)) (eitems e)) (accepted es (snd (run f es))) /\
   (Forall (row_conforms (frame_schema (fk f))) (frows f) ->
@@ -605,17 +641,16 @@ Lemma history_dict : forall es f,
      forall e, In e es -> (In e (accepted es (snd (run f es))) <-> sizable ns (eitems e))).
 Proof.
   intros es f HD.
-  assert (D : forall e, In e es -> ekind_of e = KDict).
-  { intros e He. rewrite forallb_forall in HD. specialize (HD e He). unfold is_dict in HD.
-    destruct (ekind_of e); try discriminate. reflexivity. }
-  assert (A : forall e, In e (accepted es (snd (run f es))) -> ekind_of e = KDict /\ snd (append f e) = AOk).
+  assert (D : forall e, In e es -> is_mapping e = true).
+  { intros e He. rewrite forallb_forall in HD. exact (HD e He). }
+  assert (A : forall e, In e (accepted es (snd (run f es))) -> is_mapping e = true /\ snd (append f e) = AOk).
   { intros e He. apply accepted_In in He. destruct He as [H1 H2]. split; [apply D; exact H1 | exact H2]. }
   split; [|split; [|split]].
   - apply map_ext_in. intros e He. destruct (A e He) as [K O].
-    exact (proj1 (append_dict_row f e K O)).
+    exact (proj1 (append_mapping_row f e K O)).
   - intros H0. destruct (history_rows es f) as [_ [_ R]]. rewrite R. apply Forall_app. split; [exact H0|].
     apply Forall_forall. intros rw Hrw. apply in_map_iff in Hrw. destruct Hrw as [e [Hb He]]. subst rw.
-    destruct (A e He) as [K O]. exact (proj1 (proj2 (append_dict_row f e K O))).
+    destruct (A e He) as [K O]. exact (proj1 (proj2 (append_mapping_row f e K O))).
   - intros s Hs e He. rewrite accepted_In. rewrite (append_accepts_iff f s e Hs (D e He)).
     split; [intros [_ H]; exact H | intros H; split; [exact He | exact H]].
   - intros ns Hs e He. rewrite accepted_In. rewrite (append_names_accepts_iff f ns e Hs (D e He)).
@@ -641,7 +676,7 @@ Qed.
 
 (* the history statement for the three ways a frame is created *)
 Lemma history_init : forall (i : init) (es : list entry),
-  forallb is_dict es = true ->
+  forallb is_mapping es = true ->
   let f0 := init_frame i in
   let f' := fst (run f0 es) in
   let acc := accepted es (snd (run f0 es)) in
@@ -659,7 +694,7 @@ Lemma history_init : forall (i : init) (es : list entry),
 Proof.
   intros i es HD f0 f' acc. subst f' acc.
   destruct (history_rows es f0) as [K [Ln R]].
-  destruct (history_dict es f0 HD) as [B [C [S Nm]]].
+  destruct (history_mapping es f0 HD) as [B [C [S Nm]]].
   split; [exact K|]. split; [exact Ln|]. split; [apply accepted_filter|].
   split; [rewrite R, B; reflexivity|]. split; [exact S|]. split; [exact Nm|].
   intros H0. apply C. subst f0. destruct i as [s rows|ns rows|ds].
@@ -748,28 +783,6 @@ Qed.
 
 (* ===================================================================================== *)
 (* witnesses                                                                             *)
-
-(* F-C05-2: a conforming record handed over as a non-dict mapping is accepted, and what is stored is the
-   tuple of its keys - not its values, and not a conforming row *)
-Lemma mapping_refuted :
-  exists (s : schema) (e : entry),
-    name_of type_names 6%N = "INTEGER"%string /\
-    s = [mkcol 0%N (Some 6%N) true] /\
-    ekind_of e = KMapping /\ conforms s (eitems e) /\ sizable (names s) (eitems e) /\
-    snd (append (init_frame (IRows s [])) e) = AOk /\
-    frows (fst (append (init_frame (IRows s [])) e)) <> [extract (names s) (eitems e)] /\
-    ~ Forall (row_conforms s) (frows (fst (append (init_frame (IRows s [])) e))).
-Proof.
-  exists [mkcol 0%N (Some 6%N) true], (mkent KMapping [(0%N, VObj 4%N 7%Z true)]).
-  split; [vm_compute; reflexivity|]. split; [reflexivity|]. split; [reflexivity|].
-  split; [apply validate_ok_iff_conforms; vm_compute; reflexivity|].
-  split; [vm_compute; reflexivity|]. split; [vm_compute; reflexivity|]. split.
-  - vm_compute. discriminate.
-  - intros H. vm_compute in H. inversion H as [|rw rest H1 H2]. subst.
-    unfold row_conforms in H1. inversion H1 as [|c v s' r' Hf Hr]. subst.
-    unfold value_fits in Hf. cbn [ctype] in Hf. destruct Hf as [k [Hk Hi]].
-    vm_compute in Hk. inversion Hk. subst k. vm_compute in Hi. discriminate.
-Qed.
 
 (* what fix 421aa6e bought: with the store step before the size step a raising append leaves a row behind *)
 Lemma store_before_size_not_atomic :
